@@ -1184,13 +1184,17 @@ static Token *preprocess2(Token *tok) {
   return head.next;
 }
 
+// Defines a macro as the line `#define <name> <buf>` would. The name is
+// lexed like in the directive, so `name` may carry a parameter list
+// (-D'F(x)=x+1' defines the function-like macro F) and must begin
+// with an identifier.
 void define_macro(char *name, char *buf) {
-  // The body is tokenized like the text of a file, so \u and \U
+  // The line is tokenized like the text of a file, so \u and \U
   // escapes are decoded here as tokenize_file() does for a file.
-  buf = strdup(buf);
+  buf = format("%s %s\n", name, buf);
   convert_universal_chars(buf);
   Token *tok = tokenize(new_file("<built-in>", 1, buf));
-  add_macro(name, true, tok);
+  read_macro_definition(&tok, tok);
 }
 
 void undef_macro(char *name) {
